@@ -173,9 +173,12 @@ type computerFunc = func(*ComputedStyle, pr.KnownProp, pr.CssProperty) pr.CssPro
 // backgroundImage computes lenghts in gradient background-image.
 func backgroundImage(computer *ComputedStyle, _ pr.KnownProp, _value pr.CssProperty) pr.CssProperty {
 	value := _value.(pr.Images)
+	// the declared value is shared by every element the rule applies to: compute on a copy
+	out := make(pr.Images, len(value))
 	for i, image := range value {
 		switch gradient := image.(type) {
 		case pr.LinearGradient:
+			gradient.ColorStops = append(pr.ColorsStops(nil), gradient.ColorStops...)
 			for j, cl := range gradient.ColorStops {
 				if !cl.Position.IsNone() {
 					cl.Position = length_(computer, pr.DimOrS{Dimension: cl.Position}, -1, false).Dimension
@@ -184,6 +187,7 @@ func backgroundImage(computer *ComputedStyle, _ pr.KnownProp, _value pr.CssPrope
 			}
 			image = gradient
 		case pr.RadialGradient:
+			gradient.ColorStops = append(pr.ColorsStops(nil), gradient.ColorStops...)
 			for j, cl := range gradient.ColorStops {
 				if !cl.Position.IsNone() {
 					cl.Position = length_(computer, pr.DimOrS{Dimension: cl.Position}, -1, false).Dimension
@@ -197,9 +201,9 @@ func backgroundImage(computer *ComputedStyle, _ pr.KnownProp, _value pr.CssPrope
 			}
 			image = gradient
 		}
-		value[i] = image
+		out[i] = image
 	}
-	return value
+	return out
 }
 
 func centers(computer *ComputedStyle, value pr.Centers) pr.Centers {
@@ -461,7 +465,7 @@ func borderImageWidth(_ *ComputedStyle, _ pr.KnownProp, _value pr.CssProperty) p
 
 // Compute the “border-image-outset“ property.
 func borderImageOutset(computer *ComputedStyle, _ pr.KnownProp, _value pr.CssProperty) pr.CssProperty {
-	values := _value.(pr.Values)
+	values := append(pr.Values(nil), _value.(pr.Values)...) // the declared value is shared
 	for i, value := range values {
 		if value.Unit == pr.Scalar {
 			values[i] = value
@@ -818,7 +822,7 @@ func gridTemplate(computer *ComputedStyle, _ pr.KnownProp, _value pr.CssProperty
 
 // Compute the “grid-auto-*“ properties.
 func gridAuto(computer *ComputedStyle, _ pr.KnownProp, _value pr.CssProperty) pr.CssProperty {
-	values := _value.(pr.GridAuto)
+	values := append(pr.GridAuto(nil), _value.(pr.GridAuto)...) // the declared value is shared
 	for i, value := range values {
 		values[i] = computeGridDims(computer, value)
 	}
